@@ -3,7 +3,7 @@
 META = dict(
     engine="E-CONC/E-PURE",
     technique="Lean 4 proof about ONE decision function mirroring Relay.Validate + RelayProof.ValidateLocal/ValidateBasic + AAT.Validate + Session.Validate + HandleRelay's tolerance check (order of checks kept, abstract signature scheme, ledger snapshot as parameter) + differential correspondence vs the real Relay.Validate (stub keepers) and the real keeper.HandleRelay (local HTTP server as hosted chain) on a well-formed relay with every single field altered",
-    level_text="Kernel-checked for all relays and all ledger snapshots: if validation lets a relay through then the token is signed by the key it names and that key has an application record at the session height, the proof is signed by the client key named in the token over the proof hash, the request hash matches the payload, the servicer key is this node and this node is in the session, the chain is one of the application's and is hosted, session height = the requested one and >= 1, block height within the sync allowance, evidence not sealed / no duplicate / under the allowance (served_requires); HandleRelay additionally requires the tolerance window (served_requires_handle); every single wrong ingredient rejects (alter_field_rejected, 13 disjuncts). Counterexample theorems for what the code does not guarantee: an allowance rounding to zero ends in log.Fatalf (node exits), the tolerance window ignores the session grid, the rollover error path panics. The real code runs on 75 alterations of a valid relay every run; the error class is compared with the model and 'served' is judged by the executable spec.",
+    level_text="Kernel-checked for all relays and all ledger snapshots: if validation lets a relay through then the token is signed by the key it names and that key has an application record at the session height, the proof is signed by the client key named in the token over the proof hash, the request hash matches the payload, the servicer key is this node and this node is in the session, the chain is one of the application's and is hosted, session height = the requested one and >= 1, block height within the sync allowance, evidence not sealed / no duplicate / under the allowance (served_requires); HandleRelay additionally requires the tolerance window (served_requires_handle); every single wrong ingredient rejects (alter_field_rejected, 13 disjuncts). Since the fixes 94ea242 / e007075 / b757cb3 the former defects are theorems of the positive kind: validation never ends in log.Fatalf (validate_never_fatal, zero_allowance_refused), only first blocks of a session pass the tolerance check (tolerance_on_session_grid; served_requires_handle now includes it), the rollover error path reports an internal error (rollover_error_reported); a served relay has a positive allowance. The real code runs on 75 alterations of a valid relay every run; the error class is compared with the model and 'served' is judged by the executable spec.",
     level_note="The application status the code requires is 'record present at session height', not 'staked': status and jailed flag are never read (the model's App has no such field; replayed as served-for-non-staked-application). Partial in the sense of C39: signature verification is an oracle parameter (unforgeability not provable); sha3/JSON hashing, address derivation and the session-node selection (C33) enter as oracle data. Keepers of other modules are stubs of the expectedKeepers interfaces. Trusted: Lean kernel; axioms propext, Classical.choice, Quot.sound; Go harness and driver parser.",
 )
 
